@@ -71,6 +71,23 @@ def showOpt : Option Int → String
   | none => "-"
   | some v => toString v
 
+/-- `servelive <now µs> <start> <depth|-> <mup|-> <leeway|-> <sd> <ts>` → `refused` (the stream has not
+started: 404) or the timing line of `livetiming` -/
+def servelive : List String → Option String
+  | [now, start, depth, mup, leeway, sd, ts] => do
+    let now ← parseInt now
+    let start ← parseStart start
+    let depth ← parseOptInt depth
+    let mup ← parseOptInt mup
+    let leeway ← parseOptInt leeway
+    let sd ← parseNat sd
+    let ts ← parseNat ts
+    if ts = 0 ∨ now < 0 then none else
+    match serveLive now ⟨sd, ts⟩ { start := start, depth := depth, mup := mup, leeway := leeway } with
+    | none => some "refused"
+    | some t => some (showTiming t)
+  | _ => none
+
 /-- `handon <now1> <now2> <start> <depth|-> <mup|-> <leeway|-> <sd> <ts>` →
 `<handed-on start µs> <offset min> <depth> <mup|-> | <timing of the followed document at now2>` -/
 def handon : List String → Option String
@@ -92,6 +109,6 @@ def handon : List String → Option String
 
 /-- channels exported to `Main.lean` (collected by harness/gen_main.py) -/
 def channels : List (String × (List String → Option String)) :=
-  [("calendar", calendar), ("mupdefault", mupdefault), ("livetiming", livetiming), ("handon", handon)]
+  [("calendar", calendar), ("mupdefault", mupdefault), ("livetiming", livetiming), ("handon", handon), ("servelive", servelive)]
 
 end DashLive.Driver.LiveTiming
